@@ -7,7 +7,8 @@
    dict, the underlying state including the getter call count). *)
 From Coq Require Import List ZArith Bool.
 From SC Require Import Base.Res Corr.Enc
-  Desc.SpecPropModel Desc.SpecPropSpec Desc.ClassPropModel Desc.ClassPropSpec.
+  Desc.SpecPropModel Desc.SpecPropSpec Desc.ClassPropModel Desc.ClassPropSpec
+  Desc.SpecPropDepsModel Desc.SpecPropDepsSpec.
 Import ListNotations.
 Open Scope Z_scope.
 
@@ -118,6 +119,75 @@ Definition check_sp (k : case) : nat :=
   let u0 := mku (k_x0 k) None 0 in
   if zlistlist_eqb (s_trace k (spec_init u0) (k_ops k)) (k_seen k)
   then if zlistlist_eqb (m_trace k (m_init u0) (k_ops k)) (k_seen k) then 0%nat else 1%nat
+  else 2%nat.
+
+(* ---------------------------------------------------------------- own-name backing field *)
+(* The custom setter / deleter / getter keep their backing value in
+   instance.__dict__ under the property's OWN name ("p") instead of "_p".
+   Generated only for overridable = false, cache = false: such a property can
+   hold neither an override nor a cached value, so that entry is nothing but
+   underlying state (the `upriv` field of the pool state) and every read is
+   the getter's result on current state.  The observation rows are the same
+   ([outcome; value; __dict__["p"]; x; __dict__["_p"]; calls]); expected is
+   the ordinary trace with the backing value shown in the __dict__["p"]
+   column (the protocol's own entry must be absent) and no "_p" entry. *)
+Definition own_row (r : list Z) : list Z :=
+  match r with
+  | [o; v; sl; x; pv; n] => [o; v; (if sl =? -1 then pv else -99); x; -1; n]
+  | _ => r
+  end.
+
+(* 3: not applicable (the property could hold an override / a cached value) *)
+Definition check_sp_own (k : case) : nat :=
+  let u0 := mku (k_x0 k) None 0 in
+  if overridable (k_cfg k) || cache (k_cfg k) then 3%nat
+  else if zlistlist_eqb (map own_row (s_trace k (spec_init u0) (k_ops k))) (k_seen k)
+  then if zlistlist_eqb (map own_row (m_trace k (m_init u0) (k_ops k))) (k_seen k) then 0%nat else 1%nat
+  else 2%nat.
+
+(* ---------------------------------------------------------------- trigger + dependant *)
+(* two properties t, q on one spec-class instance (Desc/SpecPropDepsModel.v);
+   they share x, the private field and the call counter; q's getter answers
+   x + 100 where t's answers x *)
+Definition g_fget_q (u : ust) : res cval * ust :=
+  (getter_mode (ux u) (upriv u) (ux u + 100), mku (ux u) (upriv u) (ucalls u + 1)).
+
+Record dcase := mkdcase {
+  e_cfg : dcfg;
+  e_sid_t : Z; e_did_t : Z; e_pid_t : Z;
+  e_sid_q : Z; e_did_q : Z; e_pid_q : Z;
+  e_x0 : Z;
+  e_ops : list (@dop cval Z); e_seen : list (list Z) }.
+
+Section OneD.
+  Variable k : dcase.
+
+  (* rows: [outcome; value; __dict__["t"]; __dict__["q"]; x; _p; calls] *)
+  Fixpoint dm_trace (s : @dmst cval ust) (xs : list (@dop cval Z)) : list (list Z) :=
+    match xs with
+    | [] => []
+    | x :: t =>
+        let '(r, s1) := dm_step sentinel g_fget g_fget_q (g_fset (e_sid_t k)) (g_fset (e_sid_q k))
+                          (g_fdel (e_did_t k)) (g_fdel (e_did_q k)) g_poke
+                          (pav (e_pid_t k)) (pav (e_pid_q k)) is_int is_int (e_cfg k) s x in
+        (enc_res r ++ enc_opt (dslot_t s1) :: enc_opt (dslot_q s1) :: enc_ust (dmu s1)) :: dm_trace s1 t
+    end.
+
+  Fixpoint ds_trace (s : @dsst cval ust) (xs : list (@dop cval Z)) : list (list Z) :=
+    match xs with
+    | [] => []
+    | x :: t =>
+        let '(r, s1) := ds_step sentinel g_fget g_fget_q (g_fset (e_sid_t k)) (g_fset (e_sid_q k))
+                          (g_fdel (e_did_t k)) (g_fdel (e_did_q k)) g_poke
+                          (pav (e_pid_t k)) (pav (e_pid_q k)) is_int is_int (e_cfg k) s x in
+        (enc_res r ++ enc_opt (t_visible s1) :: enc_opt (q_visible s1) :: enc_ust (dsu s1)) :: ds_trace s1 t
+    end.
+End OneD.
+
+Definition check_dp (k : dcase) : nat :=
+  let u0 := mku (e_x0 k) None 0 in
+  if zlistlist_eqb (ds_trace k (ds_init u0) (e_ops k)) (e_seen k)
+  then if zlistlist_eqb (dm_trace k (dm_init u0) (e_ops k)) (e_seen k) then 0%nat else 1%nat
   else 2%nat.
 
 (* ---------------------------------------------------------------- classproperty *)
